@@ -25,28 +25,28 @@ func init() {
 // code's own majority behaviour (CLUSTERLINT_LOCKTABLE=1 prints the counts),
 // then confirmed by reading; one reason per line.
 var guardTable = map[string]string{
-	"ipfs-cluster.Cluster.alerts":                 "alertsMux",         // 7/7; appended by alertsHandler, copied by Alerts
-	"ipfs-cluster.Cluster.readyB":                 "shutdownLock",      // 4/4; set by ready(), read by Shutdown
-	"ipfs-cluster.Cluster.removed":                "shutdownLock",      // 4/4; set by watchPeers/Shutdown
-	"ipfs-cluster.Cluster.shutdownB":              "shutdownLock",      // 2/2
-	"crdt.Consensus.shutdown":                     "shutdownLock",      // 2/2
-	"raft.Consensus.shutdown":                     "shutdownLock",      // 4/4; Clean refuses unless shutdown
-	"ipfshttp.Connector.shutdown":                 "shutdownLock",      // 2/2
-	"ipfshttp.Connector.updateMetricCount":        "updateMetricMutex", // 4/4
-	"ipfsproxy.Server.shutdown":                   "shutdownLock",      // 2/2
-	"ipfsproxy.Server.listeners":                  "shutdownLock",      // 3/3 (run/Shutdown)
-	"pubsubmon.Monitor.shutdown":                  "shutdownLock",      // 2/2
-	"rest.API.shutdown":                           "shutdownLock",      // 2/2
-	"stateless.Tracker.shutdown":                  "shutdownMu",        // 2/2
-	"metrics.Checker.failedPeers":                 "failedPeersMu",     // 5/5
-	"metrics.Store.byName":                        "mux",               // 12/12
-	"metrics.Window.window":                       "wMu",               // 5/6; All() relies on the caller holding Store.mux ("we always lock the outer map")
-	"optracker.Operation.error":                   "mu",                // 2/2
-	"optracker.Operation.phase":                   "mu",                // 3/3
-	"optracker.Operation.ts":                      "mu",                // 3/3
-	"optracker.OperationTracker.operations":       "mu",                // 15/15
-	"disk.Informer.rpcClient":                     "mu",                // 3/3 (after the informer fix)
-	"numpin.Informer.rpcClient":                   "mu",                // 3/3
+	"ipfs-cluster.Cluster.alerts":           "alertsMux",         // 7/7; appended by alertsHandler, copied by Alerts
+	"ipfs-cluster.Cluster.readyB":           "shutdownLock",      // 4/4; set by ready(), read by Shutdown
+	"ipfs-cluster.Cluster.removed":          "shutdownLock",      // 4/4; set by watchPeers/Shutdown
+	"ipfs-cluster.Cluster.shutdownB":        "shutdownLock",      // 2/2
+	"crdt.Consensus.shutdown":               "shutdownLock",      // 2/2
+	"raft.Consensus.shutdown":               "shutdownLock",      // 4/4; Clean refuses unless shutdown
+	"ipfshttp.Connector.shutdown":           "shutdownLock",      // 2/2
+	"ipfshttp.Connector.updateMetricCount":  "updateMetricMutex", // 4/4
+	"ipfsproxy.Server.shutdown":             "shutdownLock",      // 2/2
+	"ipfsproxy.Server.listeners":            "shutdownLock",      // 3/3 (run/Shutdown)
+	"pubsubmon.Monitor.shutdown":            "shutdownLock",      // 2/2
+	"rest.API.shutdown":                     "shutdownLock",      // 2/2
+	"stateless.Tracker.shutdown":            "shutdownMu",        // 2/2
+	"metrics.Checker.failedPeers":           "failedPeersMu",     // 5/5
+	"metrics.Store.byName":                  "mux",               // 12/12
+	"metrics.Window.window":                 "wMu",               // 5/6; All() relies on the caller holding Store.mux ("we always lock the outer map")
+	"optracker.Operation.error":             "mu",                // 2/2
+	"optracker.Operation.phase":             "mu",                // 3/3
+	"optracker.Operation.ts":                "mu",                // 3/3
+	"optracker.OperationTracker.operations": "mu",                // 15/15
+	"disk.Informer.rpcClient":               "mu",                // 3/3 (after the informer fix)
+	"numpin.Informer.rpcClient":             "mu",                // 3/3
 }
 
 func r181(c *Ctx, r *R) {
